@@ -121,7 +121,11 @@ func executeCompaction(db *DB) (compactionMetadata *proto.CompactionMetadata, er
 		}
 	}()
 
+	// tombstones can only be dropped when no older table is left that may still hold a value for the deleted key
 	reduceFunc := sstables.ScanReduceLatestWinsSkipTombstones
+	if !compactionAction.startsAtOldestTable {
+		reduceFunc = scanReduceLatestWinsKeepTombstones
+	}
 	err = sstables.NewSSTableMerger(db.cmp).MergeCompact(iterators, writer, reduceFunc)
 	if err != nil {
 		return nil, err
@@ -148,6 +152,16 @@ func executeCompaction(db *DB) (compactionMetadata *proto.CompactionMetadata, er
 	log.Printf("done compacting %d sstables in %v. Path: [%s]\n", len(paths), time.Since(start), writeFolder)
 
 	return compactionMetadata, nil
+}
+
+// scanReduceLatestWinsKeepTombstones is sstables.ScanReduceLatestWins that carries a tombstone over as an empty value.
+// The merge iterator drops nil values, an empty value still reads as deleted and shadows older tables.
+func scanReduceLatestWinsKeepTombstones(key []byte, values [][]byte, context []int) ([]byte, []byte) {
+	key, val := sstables.ScanReduceLatestWins(key, values, context)
+	if len(val) == 0 {
+		return key, []byte{}
+	}
+	return key, val
 }
 
 func saveCompactionMetadata(writeFolder string, compactionMetadata *proto.CompactionMetadata) (err error) {
